@@ -376,6 +376,17 @@ func ruleNoGuardedAlias(c *Ctx, rule string) {
 												continue
 											}
 										}
+										// standard-library helpers that only read the slice / map while they run
+										switch stdCallee(cc) {
+										case "slices.IndexFunc", "slices.Index", "slices.Contains", "slices.ContainsFunc", "slices.Equal", "slices.EqualFunc", "slices.Clone", "maps.Clone":
+											continue
+										}
+										// ... or edit it in place and hand back a view of the same array: the
+										// result is held to the same rule (stored back into the field, ...)
+										if inPlaceSliceOp(cc) && len(cc.Args) > 0 && cc.Args[0] == v && depth < 3 {
+											check(call, depth+1)
+											continue
+										}
 										// an iterator over the storage that is drained on the spot
 										base := cal.String()
 										if k := strings.IndexByte(base, '['); k > 0 {
